@@ -314,11 +314,12 @@ class Motor(Device):
                 self.ebpf.stmp = self.velocity + self.max_acceleration
             with self.ebpf.stmp + self.max_acceleration < self.velocity:
                 self.ebpf.stmp = self.velocity - self.max_acceleration
+            # limit before storing: the output has only 16 bits
+            with self.ebpf.stmp > self.max_velocity:
+                self.ebpf.stmp = self.max_velocity
+            with self.ebpf.stmp + self.max_velocity < 0:
+                self.ebpf.stmp = -self.max_velocity
             self.velocity = self.ebpf.stmp
-        with self.velocity > self.max_velocity:
-            self.velocity = self.max_velocity
-        with self.velocity < -self.max_velocity:
-            self.velocity = -self.max_velocity
         with self.low_switch, self.velocity < 0:
             self.velocity = 0
         with self.high_switch, self.velocity > 0:
